@@ -37,6 +37,16 @@ CLAIMED['C04'] = (
     'rounding and the sampled correspondence trusted (DESIGN §5)',
     'Lean 4 proof over an exact rational model + whole-run snapshot correspondence')
 
+CLAIMED['C03'] = (
+    'Lean theorems: total capital cost = sum of components - ITC + fees - incentives - grants (or the user-fixed total), every user-fixed '
+    'component used exactly, well field = per-well costs x numbers of wells (+ laterals, x1.05 when correlated), total O&M = components + '
+    'amortised redrilling + fees - tax relief, chiller capital cost not double counted, drilled length = vertical + lateral; the 17-row '
+    'drilling-cost table is re-extracted from the repository on every run and its obligations re-decided by the kernel; tied to the code by '
+    'whole runs (every component and both totals recomputed exactly from the run\'s own inputs) and a direct differential of the drilled-length function.',
+    'kernel + propext/Classical.choice/Quot.sound; tools/extract.py; plant/labour/pump correlations (log/pow) are observed inputs; '
+    'SUTRA/AGS/SBT economics not modelled; float rounding and the sampled correspondence trusted (DESIGN §5)',
+    'Lean 4 proof over an exact rational model + regenerated table (decide +kernel) + whole-run correspondence')
+
 PENDING_REASON = 'check not built yet in this commit (work in progress; see DESIGN.md §9 for the order)'
 
 
